@@ -328,6 +328,8 @@ def check_coalesce_and_tags(ctx: Ctx, which: set[str] | None = None) -> None:
                                "a text rewriter applied to prose must cut template tags ({% %}, {# #}, {{ }}, <!-- -->) out first "
                                "(TEMPLATE_TAG_PATTERN): tags are ordinary text to the Markdown parser, so their contents would be rewritten",
                                where(r, r.node))
+                        # ... and applies that protection to every match on its own (no cursor carried between matches)
+                        _check_callback_stateless(ctx, r, "R-REWRITE-tags")
         ctx.require("R-REWRITE", "rewriter functions passed from fill_markdown", n_rw, 1)
 
 
@@ -750,7 +752,40 @@ def check_ellipsis_shape(ctx: Ctx) -> None:
            "only the three dots and the whitespace directly around them change; "
            f"the callback can return: {sorted(fmt_parts(o) for o in outs)}", where(cb, cb.node))
     ctx.require("R-SUBSHAPE", "returns of the ellipsis callback", n_ret, 1)
+    _check_callback_stateless(ctx, el, "R-SUBSHAPE-ellipsis")
     _check_literals(ctx, mod, {"…", "“", "‘", "”", "’", "—"})
+
+
+def _check_callback_stateless(ctx: Ctx, outer: FuncInfo, rule: str) -> None:
+    """The decision for one match may depend on the match and on data fixed before the substitution starts - not on what
+    earlier matches did: no nested function of `outer` rebinds (nonlocal) or consumes / mutates a captured variable."""
+    bad: list[tuple[FuncInfo, ast.AST, str]] = []
+    nested: list[FuncInfo] = []
+    work = [outer]
+    while work:
+        g = work.pop()
+        for d in g.local_defs.values():
+            if isinstance(d, FuncInfo) and not isinstance(d.node, ast.Lambda):
+                nested.append(d)
+                work.append(d)
+    outer_locals = {x.id for x in ast.walk(outer.node) if isinstance(x, ast.Name) and isinstance(x.ctx, ast.Store)} | set(outer.params)
+    for f in nested:
+        own = {x.id for x in ast.walk(f.node) if isinstance(x, ast.Name) and isinstance(x.ctx, ast.Store)} | set(f.params)
+        declared_nonlocal = {nm for x in walk_no_nested(f.node) if isinstance(x, ast.Nonlocal) for nm in x.names}
+        for x in walk_no_nested(f.node):
+            if isinstance(x, ast.Nonlocal):
+                bad.append((f, x, f"rebinds {', '.join(x.names)} of the enclosing call"))
+            if isinstance(x, ast.Call):
+                captured = lambda e: isinstance(e, ast.Name) and e.id in outer_locals and (e.id not in own or e.id in declared_nonlocal)  # noqa: E731
+                if isinstance(x.func, ast.Name) and x.func.id == "next" and x.args and captured(x.args[0]):
+                    bad.append((f, x, f"consumes the captured iterator `{x.args[0].id}`"))
+                if isinstance(x.func, ast.Attribute) and x.func.attr in ("append", "extend", "pop", "remove", "insert", "clear", "update", "add", "popleft") \
+                        and captured(x.func.value):
+                    bad.append((f, x, f"changes the captured `{x.func.value.id}` in place"))
+    ctx.ob(rule, f"{outer.qual} :: the replacement decision does not depend on earlier matches", not bad,
+           "every match is judged on its own (against all tag spans): a cursor or other state carried from one match to the next makes the "
+           "result depend on the order and position of unrelated matches; " + "; ".join(f"{f.name}: {why}" for f, _x, why in bad),
+           where(bad[0][0], bad[0][1]) if bad else where(outer, outer.node))
 
 
 def _emitted_constants(prog, fi: FuncInfo, expr: ast.AST, node: Node, depth: int = 0) -> set[str]:
